@@ -172,6 +172,23 @@ CHECKS = {
        'cut at every position (solver-drawn index, symbolic literal bytes) followed by end of stream on the real connection loop: an '
        'incomplete command leaves the mailboxes unchanged.',
   technique='symbolic fault schedule (suspend/cancel Booleans) explored with z3 over the real code'),
+ 'C15': dict(
+  category='fault_enumeration',
+  text='Partial: pymap\'s own side of the maildir persistence protocol. The real maildir MailboxData.append/copy/move/delete, '
+       'MailboxSet.set_subscribed, UidList/Subscriptions (with_write, file_read, file_write = temporary file + rename) and FileLock '
+       'run on an in-memory file system in which every mutating operation is a kill point; the message files live in a stub object '
+       'store standing in for mailbox.Maildir (add/move/remove are atomic steps and kill points). Histories of 1 (quick) / 2 '
+       '(thorough) operations; the kill point (index into the trace of file-system operations, or none), the device layout '
+       '(temporary directory on the same or another file system: rename across devices fails with EXDEV) and the next UID are '
+       'solver variables. After the kill nothing further takes effect; the control files are re-read by the real code: they parse, '
+       'every acknowledged APPEND/COPY/MOVE/SUBSCRIBE/delete is there with its UID and content, no message is in neither store, no '
+       'UID is recorded twice, next UID above all records, and without a kill every operation is acknowledged in both '
+       'configurations.',
+  note=TRUST + 'Not covered, and not claimed: what mailbox.Maildir does inside one add() and for flag changes (standard library, '
+       'real file system), CREATE/RENAME of folders, torn writes inside one file, more than one kill, lock files left behind by a '
+       'kill. The claim is about the code of pymap listed in the evidence, on the stated file-system model.',
+  technique='symbolic execution of the real control-file code on an in-memory file system; kill point, device layout and next '
+            'UID as z3 variables'),
  'C16': dict(
   text='Assume/guarantee decomposition on the real code: (1) dict MailboxData.update_selected(wait_on) started on a real asyncio loop from '
        'change logs produced by <= 2 (quick) / 3 (thorough) mutations with the idler\'s consumed position a symbolic integer 0..highest (or '
@@ -235,9 +252,6 @@ CHECKS = {
 }
 
 NA = {
- 'C15': 'crash points lie between file-system operations issued by the standard library (mailbox.Maildir, tempfile, '
-        'os.rename); their state lives in the kernel, not in Python values, so symbolic execution of pymap cannot '
-        'range over them; only the UID-list text round trip is pure and is checked under C04 (DESIGN.md 6)',
 }
 
 
